@@ -518,6 +518,27 @@ pub fn gen_lib(t: Tier, c: &mut Chooser, families: &[usize]) -> GenCase {
     GenCase { lib, family }
 }
 
+
+// -------------------------------------------------------------------------------------------------
+// Fixed values (base streams of C10)
+// -------------------------------------------------------------------------------------------------
+
+/// an element with witness values only: minimal (no optional record) or with every optional record
+pub fn fixed_elem(kind: Kind, full: bool, ord: usize) -> RElem {
+    let mut c = Chooser::new(&[]);
+    let e = gen_elem(&mut c, kind, if full { Shape::Full } else { Shape::Min }, FIXED, ord);
+    assert!(c.trace.is_empty());
+    e
+}
+pub fn fixed_header() -> RLib {
+    let mut c = Chooser::new(&[]);
+    gen_header(&mut c, FIXED)
+}
+pub fn fixed_struct(si: usize) -> RStruct {
+    let mut c = Chooser::new(&[]);
+    gen_struct_head(&mut c, FIXED, si)
+}
+
 // -------------------------------------------------------------------------------------------------
 // Mapping onto gds21's data model (plain data construction)
 // -------------------------------------------------------------------------------------------------
